@@ -21,10 +21,10 @@ CHECKS = {
             'Held on every explored (program, masks, spec mode, full_cost) case for params/params_no_bias/ops/ops_no_bias/gap8_latency, incl. layers invoked twice and fixed first layers.',
             'float32 costs compared at 1e-6 relative; gap8 judged for consistency with the registered function', '5/C04'),
     'C05': ('reference bit-cost from summary() + R-alive, probing CostSpec recording the specs shown to cost functions',
-            'Held on every explored per-layer / per-channel / per-channel+0bit case for params_bit, ops_bit, mpic_latency (and ne16_latency where applicable); one mechanism recorded as known finding.',
+            'Held on every explored per-layer / per-channel / per-channel+0bit case for params_bit, ops_bit, mpic_latency (and ne16_latency where applicable), incl. layers re-used at two resolutions and non-zero padding modes; the defects found were repaired (known_findings.json).',
             'reference uses only summary() and the seed program; 1e-5 relative', '5/C05'),
     'C06': ('reference-model oracle: theta-weighted R-cost per branch and call site, bounds over pure selections, hard cost vs exported network',
-            'Held on every explored (network, coefficients, mode, metric, full_cost) case; the different-resolution double invocation is a known finding identified by its mechanism model.',
+            'Held on every explored (network, coefficients, mode, metric, full_cost) case, incl. blocks invoked twice at the same / at different resolutions and seed networks wrapped a second time at another input resolution (the different-resolution defect was repaired, 68d733d).',
             'theta read after the forward; 1e-5 relative', '5/C06'),
     'C07': ('differential oracle vs a deep copy of the seed, training-flag snapshots, SHA-256 of the user model state_dict, immediate-export architecture comparison',
             'Held on every explored PIT / MPS / SuperNet import case (fold on/off, train/eval hand-over, user-placed layers, identical-copy and hard-selected branches).',
@@ -33,7 +33,7 @@ CHECKS = {
             'Held on the complete (K 1..12, d 1..3, r 0..K, g 0..len(gamma)) sweep and on adversarial real mask vectors (0, negative, 1e30, 3e38, threshold values) on random programs.',
             'NaN/inf not assigned; frozen time maskers not assigned', '5/C08'),
     'C09': ('program-level reference R-alive vs five independent reports per layer + dynamic pre-hook zero check + exported forward',
-            'Held on all 36 concat origin combinations x consumers x families and on random DAGs / excluded layers / user-placed layers; three PIT masker-sharing mechanisms are known findings identified by taint kinds.',
+            'Held on all 36 concat origin combinations x consumers x families and on random DAGs / excluded layers / user-placed layers; the PIT masker-sharing defects found (excluded layers, sums with / depthwise after a concat, concat into an output) were repaired.',
             'R-alive takes each layer\'s own binarised mask as given; dynamic check one-sided', '5/C09'),
     'C10': ('history + offline checker: class-level wrappers on the sampling functions log every sampling event; rules of the statement applied per event; summary/export vs R-select at the end of each history',
             'Held on every recorded sampling event of random option/forward interleavings on stand-alone quantizers / combiners and whole models; SuperNet soft-in-eval is a known finding.',
@@ -51,7 +51,7 @@ CHECKS = {
             'Held on every explored (program, precisions, backend, options) case for MATCH and MAUPITI incl. bias-free layers and dilation on either axis.',
             'integerize_arch applied to a deep copy of the export; bound = 1 level + own scale/shift approximation error', '5/C14'),
     'C15': ('exhaustive enumeration against the order-independent reference R-lookup + icontract postcondition on CostSpec.__getitem__ in situ',
-            'Exhaustive: every registration order of every pattern subset x every truth assignment x both defaults (2100 lookups), plus in-situ lookups made by real conversions.',
+            'Exhaustive: every registration order of every pattern subset x every truth assignment x both defaults, the same with one function object shared by two patterns (5700 lookups), plus in-situ lookups made by real conversions.',
             'user constraint = arbitrary predicate (stride==2 / in_features==7)', '5/C15'),
     'C16': ('direct calls of every registered cost function on grid sweeps with finiteness / sign / monotonicity / identity / rejection oracles; helper exactness on integer pairs',
             'Quick: strided grids (every tile boundary +-1); thorough: full grids (channels 1..130, kernels, output sizes 1..33, bits), fractional channel counts with gradients, all helpers, rejection probes.',
@@ -65,8 +65,8 @@ CHECKS = {
     'C19': ('float64 reference R-duccio vs the real regularizers on stub and real models; effective strength recovered by differentiation; complete (epoch, n_epochs) grid',
             'Held on all 1325 (epoch, n_epochs<=50) pairs x cost placements x strength modes, BaseRegularizer, and real PIT models.',
             'positive final strengths read as positive and finite', '5/C19'),
-    'C20': ('direct + in-situ contract on _reassign_precisions (exhaustive small matrices, all compositions) and end-to-end histories of optimize_prec_assignment with the NE16 cost',
-            'All four defect mechanisms of the refinement found on the pinned tree are known findings with mechanism predicates; any other violation is reported.',
+    'C20': ('direct + in-situ contract on _reassign_precisions (exhaustive small matrices, all compositions), wrapper on _compute_cost recording every evaluated configuration, and end-to-end histories of optimize_prec_assignment with the NE16 cost',
+            'Held on every explored case: exhaustive small score matrices x all compositions (counts met, one precision per channel) and end-to-end refinements of per-channel NE16 models incl. 33..72-channel layers (promotion only, counts == chosen counts, chosen configuration is a cheapest evaluated one, cost not higher). The four defect mechanisms found on the pinned tree were repaired (5bae6ad, 5521313, eda93e6).',
             'bit-widths read from summary(); chosen counts observed at the call boundary of the reassignment step', '5/C20'),
 }
 NOT_BUILT = {}
